@@ -31,12 +31,13 @@ META = {
     "bounds": {"quick": "E2: |VALUE| <= 8, read name <= 10 chars; E1: 2 optional-field slots from a menu of 9 (+cg/no-cg, repeated tag) per emitter",
                "thorough": "E2: |VALUE| <= 12; E1: 3 slots"},
     "out": ["values longer than the bound (the scanner patterns are star-free in the value, so length adds no behaviour, but this is "
-            "not proved)", "non-ASCII", "read names containing blanks (documented cut)", "mandatory numeric columns with leading zeros", "white space at the very end of the line (the last column is right-stripped by the reader)"],
+            "not proved)", "non-ASCII other than the characters of the menus", "read-name / value characters outside the stated menus", "mandatory numeric columns with leading zeros", "white space at the very end of the line (the last column is right-stripped by the reader)"],
     "assumptions": ["E2 models the scanner's control flow by one of two skeletons detected in the AST (three findall calls guarded by "
                     "re.match, or one re.match with two groups); any other shape is reported inconclusive",
                     "stub aligner for the realign emitter"],
 }
 META["explanation"] += '  value-characters / name-characters: two characters of a Z value (menu % s : blank backslash { 0x1f e-acute * =) and of the read name (menu blank 0x1f NBSP % : | VT s) chosen by the solver, per emitter; the read name must come out cut at its first blank and only there.'
+META["explanation"] += "  no-final-newline variants per emitter; the read name's first character comes from the menu (none @ # > < * = H)."
 
 MENU = ["tp:A:S", "ws:Z:trailing ", "ds:i:7", "NM:i:-3", "dv:f:-1.5e-3", "zd:Z:a b_#.-:*/", "ba:B:i,1,-2", "ch:A:*", "hx:H:1AE3", "id:f:.5", "s1:i:12"]
 TYPES = "AifZHB"
@@ -257,6 +258,7 @@ class StubAligner:
 
 CH = ["%", "s", ":", " ", chr(92), "{", chr(0x1f), chr(0xe9), "*", "="]
 NAMECH = [" ", chr(0x1f), chr(0xa0), "%", ":", "|", chr(0x0b), "s"]
+FIRSTCH = ["", "@", "#", ">", "<", "*", "=", "H"]  # first character of the read name (FASTQ '@', comment and record-type characters)
 NAME = ["r1"]
 NONL = [False]  # the record is the last line of a file that does not end in a newline
 
@@ -283,7 +285,7 @@ def build_opt(params, a, pick_):
     if params.get("chars") == "value":
         opt = ["NM:i:1", "zz:Z:a" + pick_(a[0], CH) + pick_(a[1], CH) + "b", "yy:Z:" + pick_(a[1], CH) + pick_(a[0], CH)]
     if params.get("chars") == "name":
-        NAME[0] = "rd" + pick_(a[0], NAMECH) + "x" + pick_(a[1], NAMECH) + "y"
+        NAME[0] = pick_(a[1], FIRSTCH) + "rd" + pick_(a[0], NAMECH) + "x" + pick_(a[1], NAMECH) + "y"
         opt = ["NM:i:1"]
     if params["cg"] == "cg-first":
         opt = ["cg:Z:10="] + opt
